@@ -93,7 +93,23 @@ C03Fails(t) ==
     \cup If(t.kinds[s].uo => \A k \in 1..Len(evs) : ~evs[k].seed, "C03:seed-on-updates-only")
   : s \in 1..Len(t.kinds) }
 
-Fails(t) == IF t.problem # "" THEN {} ELSE C02Fails(t) \cup C03Fails(t)
+\* C04 under concurrency (EditScript of ResourceConc.tla): what a backpressured collection subscriber that takes
+\* a seed receives is an edit script of that seed -- a removal is of an item it has, an add of one it has
+\* not, an update of one it has
+RECURSIVE EditBad(_, _, _)
+EditBad(view, evs, k) ==
+  IF k > Len(evs) THEN {}
+  ELSE LET e == evs[k]  has == view[e.id] # Absent IN
+       (IF e.type = "REMOVE" /\ ~has THEN {"C04:removal-of-an-item-the-subscriber-never-had"}
+        ELSE IF e.type = "ADD" /\ has THEN {"C04:add-of-an-item-the-subscriber-already-has"}
+        ELSE IF e.type = "UPDATE" /\ ~has THEN {"C04:update-of-an-item-the-subscriber-never-had"}
+        ELSE {})
+       \cup EditBad([view EXCEPT ![e.id] = e.v], evs, k + 1)
+C04Fails(t) ==
+  UNION { IF t.cancelled[s] \/ t.kinds[s].uo \/ t.kinds[s].lossy \/ t.res # "coll" THEN {}
+          ELSE EditBad([i \in 1..Len(t.init) |-> Absent], t.recv[s], 1) : s \in 1..Len(t.kinds) }
+
+Fails(t) == IF t.problem # "" THEN {} ELSE C02Fails(t) \cup C03Fails(t) \cup C04Fails(t)
 BadLines == { k \in 1..Len(Obs) : Fails(Obs[k]) # {} }
 TraceInit == c = 0
 TraceNext == UNCHANGED c
